@@ -9,7 +9,26 @@ def observe(it):
     return it[0] in ("ok", "err", "ret", "acts", "ubuf")
 
 def fix(cfg):
-    return dict(csdo=cfg["srv"], hb=0, hc=[])
+    return dict(csdo=cfg["srv"], hb=0, hc=[], csdo_slot=cfg.get("csdo_slot", 0))
+
+VARIANTS = {"default": (), "c2": ("CO_CSDO_N=2",)}
+
+def second_client(behs):
+    """the same behaviours on client #1 of a CO_CSDO_N = 2 build (client #0 exists and talks to another server)"""
+    import copy
+    from vlib import Beh
+    out = []
+    for b in behs:
+        steps = copy.deepcopy(b.steps)
+        for st in steps:
+            e = st["e"]
+            if e[0] in ("csdo_up", "csdo_down", "csdo_state", "csdo_find"):
+                e[1] = 1
+            for it in st["x"]:
+                if it and it[0] == "cb" and it[1] == "csdo":
+                    it[2] = 1
+        out.append(Beh(dict(b.cfg, csdo_slot=1), steps, b.nprefix, "client1"))
+    return out
 
 def run(ctx):
     q = ctx.tier == "quick"
@@ -27,6 +46,7 @@ def run(ctx):
     if q:
         behs = common.thin(behs, 12000, ctx.seed)
     ctx.replay(behs, pre, observe, ordered=True, label="edges")
+    ctx.replay(second_client(common.thin(behs, 3000 if q else 40000, ctx.seed + 2) + scen), pre, observe, variant="c2", defines=VARIANTS["c2"], ordered=True, label="edges_second_client")
     w = ctx.gen_walks("MCCsdo", "C19_walk.cfg", num=60 if q else 2500, depth=40, timeout=2000)
     ctx.replay(w, pre, observe, ordered=True, label="walks")
     # direction code -> spec: a PRNG application with the harness's built-in SDO server, requests also from inside the
@@ -34,3 +54,4 @@ def run(ctx):
     import csdo_trace
     ctx.assumptions.append("recorded traces (direction code -> spec): sizes 1..50 plus {100,255,256,259,263,264,500,2000}, timeouts {0,2,3,5,9} ms, server answers conforming or one of six deviations at random points, random idle gaps, requests issued from inside the completion callback (refused or accepted: both allowed, an accepted one must then complete like any other)")
     csdo_trace.run(ctx, 1200 if q else 40000)
+    csdo_trace.run(ctx, 500 if q else 15000, client=1)
